@@ -73,6 +73,39 @@
         validity constraint; expat reports a skipped entity) and is REJECTED: the tolerance for
         undeclared names is applied to references nested in entity values only, not to a reference
         written in content or in an attribute value.
+    (i) round 2 -- towards (e) with a DOCTYPE, per production (Proofs/XmlWFSyntaxConvDtd.v, ..ConvDtdAtt.v): what
+        the specification reads as a general entity declaration (literal, SYSTEM / PUBLIC, NDATA), a notation
+        declaration or an attribute-list declaration (every attribute type, enumerations, defaults), the
+        regenerated grammar reads with the corresponding typed value
+        ([spec_ge_decl_is_accepted_partial], [spec_notation_decl_is_accepted_partial],
+        [spec_attlist_decl_is_accepted_partial]).  Element type declarations are NOT converse-provable against
+        Spec/XmlWF.v as it stands: the specification does not keep the content model, so its namespace level
+        accepts <!ELEMENT a (b:c:d)> although Namespaces in XML 1.0 [17]-[19] demand QNames there; the
+        implementation rejects it (correctly).  A gap of the specification, harmless for C02 (the model is the
+        stricter side).
+    (j) round 2 -- ACCEPTANCE OF WELL-FORMED DOCUMENTS WITH A DOCTYPE, outside the findings
+        ([wellformed_is_accepted_partial], Proofs/XmlWFSyntaxConvDtd*.v):
+          forall s, wf s = true -> strict_cm s = true -> conv_hyps s = true -> exists d, from_raw s = OOk ([], d)
+        for EVERY string s, with or without a document type declaration (it subsumes (e)), where the two
+        decidable hypotheses keep clear of the differences found:
+          [strict_cm s]  -- the names inside content models of ELEMENT declarations are QNames (the gap of the
+                            specification, see (i); defined through the strict variant of the specification's
+                            grammar, which refines it: [strict_grammar_refines_spec]);
+          [conv_hyps s]  -- no external subset or standalone="yes" (finding: undeclared entity referenced directly),
+                            no parameter-entity declaration (refused by XmlDocument::new, D07), and every declared
+                            general entity SIMPLE on the specification's side (no `<`, no `&` from a character
+                            reference, no `]]>` in the replacement text: keeps clear of the finding about references
+                            inside comments / CDATA sections / PIs of replacement text, and of WF13).
+        Grammar: [spec_grammar_is_accepted_partial] -- what the strict grammar reads, the production `document`
+        of the REGENERATED grammar reads (internal subset with ELEMENT incl. nested content models -- `seq` must
+        FAIL on a choice group --, ATTLIST, ENTITY, NOTATION, PI, comment; external identifiers), with the typed
+        document that translates back.  Constraints: the depth-first recursion check of XmlDocument::new answers Ok
+        on every entity that the specification expands / re-reads without error ([cer_complete]: completeness
+        of the check incl. its fuel, by induction on the height of the entity; its `seen` map is sound AND
+        complete), defaults against the entities declared before, Unique Att Spec, Legal Character.
+        The valid abstract documents of Spec/Infoset.v satisfy [conv_hyps] when they have no external subset (their
+        entity values are character data and references, [ent_items_ok]), so what is left for (f) with a DOCTYPE
+        is the DTD rung of [render_wf] alone.
     Not proved: documents WITH a document type declaration -- the DTD rung of [render_wf] (renderings of
     the declarations read back by the specification, the constraints with declared entities and defaulted
     attributes) and the converse (e) for the internal subset -- and, for all documents, [parse_render]
@@ -85,7 +118,9 @@ From XmlRs Require Import Base.CPred Spec.XmlChars Spec.XmlWF Spec.Infoset Model
   Proofs.NameLanguage Proofs.XmlWFLexical Proofs.XmlWFRender.
 From XmlRs Require Model.ParseActions Model.Info Proofs.ParseInvElem Proofs.XmlWFSyntaxDoc Proofs.XmlWFSyntaxCheck
   Proofs.XmlWFSyntaxConvElem Proofs.XmlWFSyntaxConvDoc Proofs.XmlWFSyntaxConvCheck
-  Proofs.XmlWFSyntaxRenderNode Proofs.XmlWFSyntaxRenderCheck Proofs.XmlWFSyntaxRenderDoc.
+  Proofs.XmlWFSyntaxRenderNode Proofs.XmlWFSyntaxRenderCheck Proofs.XmlWFSyntaxRenderDoc
+  Proofs.DisplayLex Proofs.XmlWFSyntaxDtd Proofs.XmlWFSyntaxDtdDoc Proofs.XmlWFSyntaxConvDtd Proofs.XmlWFSyntaxConvDtdAtt
+  Proofs.XmlWFSyntaxConvDtdElem Proofs.XmlWFSyntaxConvDtdDoc Proofs.XmlWFSyntaxConvDtdCheck.
 Import ListNotations.
 
 (** every oracle is an admissible choice of surface forms *)
@@ -234,6 +269,45 @@ Proof.
   rewrite H in E. discriminate E.
 Qed.
 
+(** ** (i) DTD productions, specification => regenerated grammar *)
+Theorem spec_ge_decl_is_accepted_partial : forall fuel (s' r1 : str) d r,
+  p_S s' = Some r1 -> XmlWFSyntaxDtd.spec_gedecl fuel r1 = Some (d, r) ->
+  exists n def, DisplayLex.yields (NT nt_ge_decl) (s_entity ++ s') (ParseActions.VGeneralEntity n def) r
+    /\ d = DEntity n (XmlWFSyntaxDtd.x_entdef def) /\ is_Name n = true /\ XmlWFSyntaxDtd.d04_entdef def = true.
+Proof. exact XmlWFSyntaxConvDtd.conv_ge_decl. Qed.
+
+Theorem spec_notation_decl_is_accepted_partial : forall fuel (s' : str) d r,
+  p_markupdecl fuel (s_notation_decl ++ s') = Some (d, r) ->
+  exists dn, DisplayLex.yields (NT nt_notation_decl) (s_notation_decl ++ s') (ParseActions.VDeclNotation dn) r
+    /\ d = XmlWFSyntaxDtd.x_notation dn /\ is_Name (ParseActions.dn_name dn) = true.
+Proof. exact XmlWFSyntaxConvDtd.conv_notation_decl. Qed.
+
+Theorem spec_attlist_decl_is_accepted_partial : forall fuel (s' : str) d r,
+  p_markupdecl fuel (s_attlist ++ s') = Some (d, r) ->
+  match d with DAttlist el defs => is_QName el && forallb (fun '(a, _, _) => is_QName a) defs = true | _ => True end ->
+  exists da, DisplayLex.yields (NT nt_attlist_decl) (s_attlist ++ s') (ParseActions.VDeclAtt da) r
+    /\ d = XmlWFSyntaxDtd.x_attlist da /\ XmlWFSyntaxDtd.d04_attlist da = true /\ XmlWFSyntaxConvDtdAtt.attlist_wf' da.
+Proof. exact XmlWFSyntaxConvDtdAtt.conv_attlist_decl. Qed.
+
+(** ** (j) every well-formed document outside the findings is accepted *)
+Theorem strict_grammar_refines_spec : forall s xd, XmlWFSyntaxConvDtdDoc.q_parse_document s = Some xd -> parse_document s = Some xd.
+Proof. exact XmlWFSyntaxConvDtdDoc.q_parse_document_spec. Qed.
+
+Theorem spec_grammar_is_accepted_partial : forall s xd,
+  XmlWFSyntaxConvDtdDoc.q_parse_document s = Some xd -> XmlWFSyntaxConvElem.xok (x_root xd) = true -> XmlWFSyntaxConvDtdDoc.dt_ok xd = true ->
+  exists pd, ParseActions.parse_document s = ParseActions.POk (pd, []) /\ XmlWFSyntaxDtdDoc.x_doc pd = xd /\ XmlWFSyntaxDtdDoc.ok_doc pd = true.
+Proof. exact XmlWFSyntaxConvDtdDoc.conv_document. Qed.
+
+Theorem wellformed_is_accepted_partial : forall s,
+  wf s = true -> XmlWFSyntaxConvDtdCheck.strict_cm s = true -> XmlWFSyntaxConvDtdCheck.conv_hyps s = true ->
+  exists d, Info.from_raw s = Info.OOk ([], d).
+Proof. exact XmlWFSyntaxConvDtdCheck.wf_accepted. Qed.
+
+Example wellformed_is_accepted_nonvacuous :
+  wf XmlWFSyntaxConvDtdCheck.ex_conv = true /\ XmlWFSyntaxConvDtdCheck.strict_cm XmlWFSyntaxConvDtdCheck.ex_conv = true
+  /\ XmlWFSyntaxConvDtdCheck.conv_hyps XmlWFSyntaxConvDtdCheck.ex_conv = true.
+Proof. exact XmlWFSyntaxConvDtdCheck.wf_accepted_nonvacuous. Qed.
+
 Example rendered_nontrivial :
   comment_ok [32;97;45;98;32]%N = true /\ pi_ok [112;105]%N (Some [120;63;32;62]%N) = true.
 Proof. split; vm_compute; reflexivity. Qed.
@@ -257,3 +331,9 @@ Print Assumptions render_wf_refuted.
 Print Assumptions denote_refuted.
 Print Assumptions wellformed_is_accepted_refuted.
 Print Assumptions wellformed_is_accepted_refuted_external.
+Print Assumptions spec_ge_decl_is_accepted_partial.
+Print Assumptions spec_notation_decl_is_accepted_partial.
+Print Assumptions spec_attlist_decl_is_accepted_partial.
+Print Assumptions strict_grammar_refines_spec.
+Print Assumptions spec_grammar_is_accepted_partial.
+Print Assumptions wellformed_is_accepted_partial.
